@@ -74,6 +74,19 @@ Definition calculate_new_flags (cur : list str) (new : list str) (item : str) : 
   else if str_eqb item IT_DEL then del_all new m
   else m.
 
+(** message.ValidFlag: an RFC 3501 flag = an atom, optionally preceded by one
+    backslash; atom = one or more 7-bit characters other than CTL, SP and
+    ( ) { % * DQUOTE \ ]   (fix 07) *)
+Definition atom_specials : str := S_ "(){%*""\]".
+Definition atom_char (c : ascii) : bool :=
+  let n := byte_of c in negb (n <=? 32)%N && negb (127 <=? n)%N && negb (in_set atom_specials c).
+Definition valid_flag (f : str) : bool :=
+  match trim_prefix f (S_ "\") with
+  | [] => false
+  | a => forallb atom_char a
+  end.
+Definition flags_valid (l : list str) : bool := forallb valid_flag l.
+
 (** the same function on the stored string *)
 Definition calculate_new_flags_str (cur : str) (new : list str) (item : str) : list str :=
   calculate_new_flags (fields cur) new item.
